@@ -285,7 +285,7 @@ PROPS["C11"] = {
     "facts": COMPOSE_FACTS + ["effects/cacheexecutor:executor.PreExecute", "effects/cacheexecutor:executor.PostExecute", "effects/cacheexecutor:executor.getCacheKey"],
     "runners": [stress_runner("shared", "executions sharing one cache policy with different context keys stored or returned a value under another execution's key")],
     "required_theorems": ["Failsafe.Props.C11.cache_hit_skips_inner", "Failsafe.Props.C11.cache_hit_world_unchanged", "Failsafe.Props.C11.cache_miss_spec",
-                          "Failsafe.Props.C11.cache_store_iff", "Failsafe.Props.C11.ctx_key_precedence", "Failsafe.Props.C11.no_key_no_io", "Failsafe.Props.C11.stored_lookup"],
+                          "Failsafe.Props.C11.cache_store_iff", "Failsafe.Props.C11.cache_conditions_accumulate", "Failsafe.Props.C11.ctx_key_precedence", "Failsafe.Props.C11.no_key_no_io", "Failsafe.Props.C11.stored_lookup"],
     "diff": [COMPOSE_DIFF], "rule": COMPOSE_RULE, "assumptions": COMPOSE_ASSUME + ["the Cache implementation supplied by the user is a map (Get returns what Set stored)"],
     "modelled": COMPOSE_MODELLED,
     "manifest": {
@@ -355,7 +355,8 @@ PROPS["C16"] = {
                               "effects/bulkheadexecutor:executor.PreExecute", "effects/ratelimiterexecutor:executor.Apply", "effects/timeoutexecutor:executor.Apply",
                               "effects/fallbackexecutor:executor.Apply", "effects/hedgeexecutor:executor.Apply", "effects/cacheexecutor:executor.PreExecute",
                               "effects/cacheexecutor:executor.PostExecute"],
-    "runners": [stress_runner("breaker", "under concurrent executions the breaker's state-change events, in the order the listener was told about them, did not form a connected path (or did not end in the breaker's state)")],
+    "runners": [stress_runner("breaker", "under concurrent executions the breaker's state-change events, in the order the listener was told about them, did not form a connected path (or did not end in the breaker's state)"),
+                stress_runner("shared", "executions sharing one retry policy did not each produce their own listener calls (3 failures, 2 scheduled and started retries, 1 exceeded, 1 failed completion per execution)")],
     "required_theorems": ["Failsafe.Props.C16.one_done_one_verdict", "Failsafe.Props.C16.retry_onFailure_events", "Failsafe.Props.C16.retry_scheduled_eq_started",
                           "Failsafe.Props.C16.bulkhead_onFull_iff", "Failsafe.Props.C16.limiter_event_iff", "Failsafe.Props.C16.breaker_events_connected"],
     "diff": [COMPOSE_DIFF], "rule": COMPOSE_RULE, "assumptions": COMPOSE_ASSUME,
